@@ -78,6 +78,29 @@ func genC08(t *rapid.T) *FileCase {
 		}
 	}
 	resolveGotos(allGotos, allLabels)
+	// a constant named like the script label of a ':' entry or ':' row: labels are never substituted,
+	// table vars and values are
+	if rapid.IntRange(0, 2).Draw(t, "labelconst") == 0 {
+		var lbls []string
+		for _, tp := range f.Tops {
+			if tp.K == "mapscripts" {
+				for _, e := range tp.Map.Entries {
+					if e.Kind == "plain" {
+						lbls = append(lbls, e.Label)
+					}
+					for _, r := range e.Rows {
+						if r.Body == nil {
+							lbls = append(lbls, r.Label)
+						}
+					}
+				}
+			}
+		}
+		if len(lbls) > 0 {
+			f.Tops = append([]*Top{{K: "const", Const: &Const{Name: lbls[rapid.IntRange(0, len(lbls)-1).Draw(t, "whichlabel")], Val: []string{"99"}}}}, f.Tops...)
+		}
+		f.Tops = append([]*Top{{K: "const", Const: &Const{Name: "STATE_A", Val: []string{"4", "+", "1"}}}, {K: "const", Const: &Const{Name: "VAR_TEMP_1", Val: []string{"VAR_OTHER"}}}}, f.Tops...)
+	}
 	c := &FileCase{File: f, Switches: map[string]string{"V": rapid.SampledFrom([]string{"A", "B", "zz"}).Draw(t, "v"), "W": rapid.SampledFrom([]string{"A", "1", "q"}).Draw(t, "w")}}
 	base := rapid.Uint64Range(1, 1<<40).Draw(t, "world")
 	for i := 0; i < pick(6, 16); i++ {
@@ -114,6 +137,7 @@ func checkC08(c *FileCase) *Violation {
 		st.Label("no-case")
 		return nil
 	}
+	resolved = ExpandConsts(resolved)
 	// the twin: every inline body written as a script(local) statement of the same name, in the same order
 	twin := &File{}
 	for _, t := range resolved.Tops {
@@ -268,7 +292,7 @@ func TestC08_Regress(t *testing.T) { runRegress(t, "C08") }
 
 func TestC08_MapScripts(t *testing.T) {
 	st := stat("C08")
-	st.SetRule("1-2 mapscripts statements (with and without scope modifier) of 0-6 entries in any order and mix: TYPE: Label, TYPE { body }, TYPE [ 0-5 rows of var, value: Label | var, value { body } ] with multi-token vars and values; bodies from the control-flow grammar with inline text/moves() and statement poryswitch; distinct map script types per statement. oracle: header label and scope, map_script lines (plain/inline in source order, then tables in source order), .byte 0; each table local with its map_script_2 rows in source order and .2byte 0; each inline script defined once and local; inline bodies executed against the reference under hashed worlds; and their emitted block must be textually identical to the block of the same body compiled as script(local) <same name>; optimize off and on. non-trivial = a table with >= 2 rows mixing label and inline rows AND an inline script with a loop or switch; distinct by source text")
+	st.SetRule("1-2 mapscripts statements (with and without scope modifier) of 0-6 entries in any order and mix: TYPE: Label, TYPE { body }, TYPE [ 0-5 rows of var, value: Label | var, value { body } ] with multi-token vars and values, constants in vars / values and constants named like entry labels; bodies from the control-flow grammar with inline text/moves() and statement poryswitch; distinct map script types per statement. oracle: header label and scope, map_script lines (plain/inline in source order, then tables in source order), .byte 0; each table local with its map_script_2 rows in source order and .2byte 0; each inline script defined once and local; inline bodies executed against the reference under hashed worlds; and their emitted block must be textually identical to the block of the same body compiled as script(local) <same name>; optimize off and on. non-trivial = a table with >= 2 rows mixing label and inline rows AND an inline script with a loop or switch; distinct by source text")
 	st.Assume("map script types are distinct inside one mapscripts statement")
 	runRapid(t, "C08", "TestC08_MapScripts", genC08, checkC08, fileCaseSrc)
 }
